@@ -406,9 +406,32 @@ func c01Pinned(c *Ctx) {
 	}{
 		{"pinned/TwistExtrude3D(box at (-4.5,-4.5), h=10, twist=pi)", sdf.TwistExtrude3D(b, 10, math.Pi)},
 		{"pinned/ScaleTwistExtrude3D(box at (-4.5,-4.5), h=10, twist=pi, scale 1.5)", sdf.ScaleTwistExtrude3D(b, 10, math.Pi, v2.Vec{X: 1.5, Y: 1.5})},
+		{"pinned/ScaleTwistExtrude3D(Box2D(104.6,27.86;r=13.93), h=141.1, twist=3.711, scale (0.802,1.63))",
+			sdf.ScaleTwistExtrude3D(sdf.Box2D(v2.Vec{X: 104.6, Y: 27.86}, 13.93), 141.1, 3.711, v2.Vec{X: 0.802, Y: 1.63})},
 	} {
 		res := probeShape(c, r, nil, s.s, 20000)
 		c.Eval(res.probes)
 		judgeBox(c, res, s.name, s.name, s.s.BoundingBox(), map[string]any{"pinned": s.name})
+	}
+	// 2D pins: three-arc cam with a small flank radius; closed Bezier curve whose last span ended 1 ulp off its start
+	if cam, err := sdf.ThreeArcCam2D(2.8864046726501664, 2.500202241163852, 0.7688429773525772, 3.6993107434003876); err == nil {
+		res := probeShape(c, r, cam, nil, 20000)
+		c.Eval(res.probes)
+		judgeBox(c, res, "pinned/ThreeArcCam2D(2.886,2.5,0.769,3.699)", "pinned/ThreeArcCam2D(2.886,2.5,0.769,3.699)", cam.BoundingBox(), map[string]any{"pinned": "threearccam"})
+	}
+	bz := sdf.NewBezier()
+	bz.Add(69.08856956329626, -0.8755133920267034).HandleFwd(0, 6.746885621259628)
+	bz.Add(81.53402555283289, 10.114562190281074).Handle(math.Pi/2, 7.509944793805362, 7.509944793805362)
+	bz.Add(69.08856956329626, 26.59967556374274).HandleRev(0, 4.50107733632855)
+	bz.Close()
+	if m, err := bz.Mesh2D(); err == nil {
+		bb := m.BoundingBox()
+		for _, y := range []float64{bb.Min.Y, -0.8755133920267034, -0.8755133920267042, bb.Max.Y} {
+			p := v2.Vec{X: bb.Min.X - 2.154, Y: y}
+			c.Eval(1)
+			if f := m.Evaluate(p); f < 0 {
+				c.Violate("", fmt.Sprintf("box-leak pinned/closed-Bezier: Evaluate=%g at %v, 2.154 left of BoundingBox=%v", f, p, bb), map[string]any{"pinned": "bezier-closed-curve", "p": p})
+			}
+		}
 	}
 }
